@@ -131,6 +131,14 @@ def leg_b(rep: Report, prop: str, n_cases, T, A, S, families, ms=(0, 1, 2, 5), k
     rng = np.random.default_rng(rep.seed + 17)
     recs = []
     meta = {}
+    if prop == 'C05':
+        # pinned input of known finding D5 first, so that its KNOWN-FINDING line does not depend on the random seed:
+        # one atom leaves site 0 for nowhere and later arrives at site 1 (two events involving "no site")
+        world = gen.SiteWorld(np.random.default_rng(5), 'cubic', 'chol', N=32, n_sites=2, radius=1.0, inner_fraction=1.0)
+        pinned = [[[0, 0]], [[0, 0]], [[-1, -1]], [[-1, -1]], [[1, 1]], [[1, 1]]]
+        r, _ = sites_drive.record_pipeline(-1, world, pinned, inner_fraction=1.0, ms=(0,), ks=(), want={'Hist', 'Matrix'})
+        meta[-1] = {'family': 'cubic', 'pinned': 'D5'}
+        recs += r
     for b in range(n_cases):
         fam = families[b % len(families)]
         orient = ['chol', 'pmg', 'rot'][b % 3] if fam not in gen.ORTHO_FAMILIES or True else 'chol'
